@@ -90,13 +90,79 @@ class FakeDict(dict):
 
 
 class _NumbaProxy:
+    """numba as seen by an interpreted kernel: prange is the region recorder; get_thread_id() answers with the
+    logical thread that a static schedule would give the current iteration (iterations that share a thread
+    are sequential, so only writes from iterations on *different* logical threads can conflict)."""
+
     def __init__(self, real, rec):
         self._real, self._rec = real, rec
 
     def __getattr__(self, name):
         if name == 'prange':
             return self._rec.prange
+        if name == 'get_thread_id':
+            return self._rec.current_tid
+        if name == 'get_num_threads':
+            return lambda: self._rec.nthread_model
+        if name == 'set_num_threads':
+            def _set(n):
+                self._rec.nthread_model = int(n)
+                return self._real.set_num_threads(n)
+            return _set
         return getattr(self._real, name)
+
+
+class ThreadedRecorder(RegionRecorder):
+    """Region recorder with a static-schedule model of which logical thread runs which iteration."""
+
+    def __init__(self):
+        super().__init__()
+        self.nthread_model = 1
+        self.tid_of = []  # per region: {iteration: tid}
+        self._n_in_region = 0
+
+    def prange(self, *args):
+        self.region += 1
+        self.regions.append({})
+        self.tid_of.append({})
+        rng = list(range(*args))
+        n = len(rng)
+        try:
+            for pos, i in enumerate(rng):
+                self.iteration = i
+                self._tid = pos * self.nthread_model // max(n, 1)
+                self.tid_of[self.region][i] = self._tid
+                yield i
+        finally:
+            self.iteration = None
+
+    def current_tid(self):
+        return self._tid if self.iteration is not None else 0
+
+    def thread_conflicts(self):
+        out = []
+        for r, cells in enumerate(self.regions):
+            for cell, its in cells.items():
+                tids = {self.tid_of[r][i] for i in its}
+                if len(tids) > 1:
+                    out.append(dict(region=r, cell=[c if isinstance(c, str) else int(c) for c in cell], iterations=sorted(int(i) for i in its)[:6], logical_threads=sorted(tids)[:6]))
+        return out
+
+
+def monitored_threaded(disp):
+    import numba
+
+    rec = ThreadedRecorder()
+    rec.nwrites = {}
+    rec.ever_written = set()
+    rec.uninit_reads = []
+    npp = NpProxy(rec)
+    f = disp.py_func
+    g = dict(f.__globals__)
+    g.update(numba=_NumbaProxy(numba, rec), np=npp, range=_range)
+    nf = types.FunctionType(f.__code__, g, f.__name__, f.__defaults__, f.__closure__)
+    nf.__kwdefaults__ = f.__kwdefaults__
+    return nf, rec, npp
 
 
 def _range(*a):
@@ -107,7 +173,7 @@ def monitored(disp):
     """(callable, recorder, npproxy) for one kernel call."""
     import numba
 
-    rec = RegionRecorder()
+    rec = ThreadedRecorder()
     rec.nwrites = {}
     rec.ever_written = set()
     rec.uninit_reads = []
